@@ -163,6 +163,15 @@ Step(st, o) ==
          ELSE IF ~IsSlice(x) THEN Same(st, OpenR)
          ELSE IF x.len = 0 /\ x.cap = 0 THEN Same(st, OKR)       \* index len appends: to the callee's own header only
          ELSE Same([st EXCEPT !.arrs[x.r][x.off + 1] = IntV(7)], OKR)   \* (with spare capacity the append lands in the shared array, beyond the caller's len)
+    [] o.op = "bindelem" ->      \* y = x[i] : the variable gets the VALUE read; later stores into the container do not change it
+         IF ~IsSlice(x) \/ IdxKind(o.i) # "int" THEN Same(st, OpenR)
+         ELSE IF o.i.i < 0 \/ o.i.i >= x.len THEN Same(st, ErrR)
+         ELSE Same(SetVar(st, o.y, Elem(st, x, o.i.i)), OKR)
+    [] o.op = "bindfield" ->     \* y = x.A
+         IF x.t # "struct" \/ o.s \notin {"A", "B"} THEN Same(st, OpenR)
+         ELSE Same(SetVar(st, o.y, st.structs[x.r][o.s]), OKR)
+    [] o.op = "getvar" ->        \* x  (a variable holding a scalar)
+         IF x.t \in {"int", "str", "nil", "flt", "bool"} THEN Same(st, Res("val", x)) ELSE Same(st, OpenR)
     [] o.op = "strlit" -> {[st |-> NewStr(st, o.x, o.cs), res |-> OKR]}       \* x = "abc"  (cs = its characters)
     [] o.op = "tmapnew" -> LET st1 == [st EXCEPT !.maps = Append(@, <<>>)] IN Same(SetVar(st1, o.x, TMapV(Len(st1.maps))), OKR)    \* x = make(map[string]int64)
     [] o.op = "mapset" /\ x.t = "tmap" ->     \* typed map: key and value are converted as Go would, or the store fails unchanged
@@ -192,6 +201,26 @@ Step(st, o) ==
          IF x.t # "map" THEN Same(st, OpenR)
          ELSE IF ~Hashable(o.i) THEN Same(st, ErrR)
          ELSE Same([st EXCEPT !.maps[x.r] = MapDel(@, o.i, 1, <<>>)], OKR)
+    [] o.op = "fieldset" /\ o.s = "M" ->     \* x.M = {} / {"k": 7} / 5 : a field of type map[string]int64 holds a typed map -- a fresh one, converted from the literal
+         IF x.t # "struct" THEN Same(st, OpenR)
+         ELSE IF o.v.t = "maplit0" THEN LET st1 == [st EXCEPT !.maps = Append(@, <<>>)] IN Same([st1 EXCEPT !.structs[x.r].M = TMapV(Len(st1.maps))], OKR)
+         ELSE IF o.v.t = "maplit1" THEN LET st1 == [st EXCEPT !.maps = Append(@, <<<<StrV("k"), IntV(7)>>>>)] IN Same([st1 EXCEPT !.structs[x.r].M = TMapV(Len(st1.maps))], OKR)
+         ELSE IF o.v.t \in {"int", "str", "flt"} THEN Same(st, ErrR)
+         ELSE Same(st, OpenR)
+    [] o.op = "aliasfield" ->                 \* y = x.M : a second name for the field's map (maps are references)
+         IF x.t # "struct" THEN Same(st, OpenR)
+         ELSE IF st.structs[x.r].M.t # "tmap" THEN Same(st, OpenR)             \* a nil map: what writes through its alias do is not asserted
+         ELSE Same(SetVar(st, o.y, st.structs[x.r].M), OKR)
+    [] o.op = "fieldmapget" ->                \* x.M[i]
+         IF x.t # "struct" THEN Same(st, OpenR)
+         ELSE IF o.i.t # "str" THEN Same(st, OpenR)
+         ELSE IF st.structs[x.r].M.t # "tmap" THEN Same(st, Res("val", NilV))   \* reading a nil map: nil
+         ELSE Same(st, Res("val", MapGet(st.maps[st.structs[x.r].M.r], o.i, 1)))
+    [] o.op = "fieldmapset" ->                \* x.M[i] = v
+         IF x.t # "struct" THEN Same(st, OpenR)
+         ELSE IF st.structs[x.r].M.t # "tmap" \/ o.i.t # "str" THEN Same(st, OpenR)
+         ELSE LET cv == ToInt64(o.v) IN
+              IF ~cv.ok THEN Same(st, ErrR) ELSE Same([st EXCEPT !.maps[st.structs[x.r].M.r] = MapPut(@, o.i, cv.v, 1, <<>>)], OKR)
     [] o.op = "fieldset" ->  \* x.A = v (int64 field) / x.B = v (string field) / x.Z = v (no such field)
          IF x.t # "struct" THEN Same(st, OpenR)
          ELSE IF o.s = "Z" THEN Same(st, ErrR)
@@ -203,7 +232,10 @@ Step(st, o) ==
          IF x.t # "struct" THEN Same(st, OpenR)
          ELSE IF o.s = "Z" THEN Same(st, ErrR)
          ELSE Same(st, Res("val", st.structs[x.r][o.s]))
-    [] o.op = "structnew" -> LET st1 == [st EXCEPT !.structs = Append(@, [A |-> IntV(0), B |-> StrV("")])] IN Same(SetVar(st1, o.x, StructV(Len(st1.structs))), OKR)
+    [] o.op = "structnew" ->     \* make(T): zero fields; a map-typed field is made ready for use (an empty map, not a nil one)
+         LET st0 == [st EXCEPT !.maps = Append(@, <<>>)]
+             st1 == [st0 EXCEPT !.structs = Append(@, [A |-> IntV(0), B |-> StrV(""), M |-> TMapV(Len(st0.maps))])] IN
+         Same(SetVar(st1, o.x, StructV(Len(st1.structs))), OKR)
 
 \* ---- observable projection: per variable its contents, length, capacity and with which other variables it shares storage
 Share(st, n, m) ==      \* element offset of m's window relative to n's when both are slices of one array, else "no"
